@@ -38,6 +38,7 @@ class Check:
                              "sa/ir2json.cc (LLVM API walker)", "sa/ir.py, sa/flow.py"]
         self.explanation = ""
         self.min_counts = {}    # rule -> (found, required)
+        self._seen = set()
 
     # ---- recording --------------------------------------------------------
     def rule(self, rid, text):
@@ -54,6 +55,10 @@ class Check:
 
     def ob(self, rule, instance, ok, detail="", loc="", fn=""):
         """Record one obligation. ok: True (discharged) / False (refuted)."""
+        key = (rule, instance, bool(ok), loc)
+        if key in self._seen:
+            return ok
+        self._seen.add(key)
         self.obligations.append({"rule": rule, "instance": instance, "ok": bool(ok),
                                  "detail": detail, "loc": loc, "function": fn})
         return ok
